@@ -152,10 +152,30 @@ def rule_cmp(ctx, rep):
         pat.require(n >= 1, "%s: poll_state never returns true" % fl)
 
 
+def rule_requeue_survives(ctx, rep):
+    """A handle completes only if the worker callback keeps running: when it re-queues itself on a helper that is being
+    destroyed, the callback becomes a leftover that C03's hand-over must deliver to a helper that is awake (shared rules:
+    leftovers spliced under the mutex, the receiving helper woken on every path)."""
+    from . import c03
+    n0 = len(rep.results)
+    c03.rule_handover(ctx, rep)
+    keep = []
+    for r in rep.results[n0:]:
+        if any(k in r["instance"] for k in ("wake-default", "splice")):
+            r = dict(r)
+            r["key"] = r["key"].replace(r["rule"], "C14.handover")
+            r["rule"] = "C14.handover"
+            keep.append(r)
+    del rep.results[n0:]
+    rep.results += keep
+    pat.require(keep, "hand-over instances vanished")
+
+
 RULES = [
     ("C14.lock", rule_lock),
     ("C14.handle", rule_handle),
     ("C14.worker", rule_worker),
     ("C14.cmp", rule_cmp),
+    ("C14.handover", rule_requeue_survives),
 ]
 FLOORS = {}
